@@ -166,6 +166,9 @@ func (store *fileStore) Refresh() (err error) {
 	if store.headerFile, err = openOrCreateFile(store.headerFname, 0660); err != nil {
 		return err
 	}
+	if err = store.dropIncompleteIndexLine(); err != nil {
+		return err
+	}
 	if store.sessionFile, err = openOrCreateFile(store.sessionFname, 0660); err != nil {
 		return err
 	}
@@ -188,6 +191,23 @@ func (store *fileStore) Refresh() (err error) {
 
 	if err := store.SetNextTargetMsgSeqNum(store.NextTargetMsgSeqNum()); err != nil {
 		return errors.Wrap(err, "set next target")
+	}
+	return nil
+}
+
+// dropIncompleteIndexLine removes an index line that a crash cut short. Such a line does not
+// describe a saved message; left in place it makes every read fail and gets glued to the next line.
+func (store *fileStore) dropIncompleteIndexLine() error {
+	index, err := os.ReadFile(store.headerFname)
+	if err != nil {
+		return fmt.Errorf("unable to read from file: %s: %s", store.headerFname, err.Error())
+	}
+	if len(index) == 0 || index[len(index)-1] == '\n' {
+		return nil
+	}
+	complete := int64(strings.LastIndexByte(string(index), '\n') + 1)
+	if err := store.headerFile.Truncate(complete); err != nil {
+		return fmt.Errorf("unable to truncate file: %s: %s", store.headerFname, err.Error())
 	}
 	return nil
 }
